@@ -23,10 +23,14 @@ namespace Earverif.Hoa
 class Scalar (α : Type) extends Add α, Sub α, Mul α, Div α, Neg α where
   ofNat : Nat → α
   sqrt : α → α
+  sin : α → α
+  cos : α → α
 
 instance : Scalar Float where
   ofNat := Float.ofNat
   sqrt := Float.sqrt
+  sin := Float.sin
+  cos := Float.cos
 
 section kernel
 variable {α : Type} [Scalar α]
@@ -145,6 +149,23 @@ def route {C : Nat} (zero : α) : List Bool → List (Vector α C) → Option (L
   | false :: _, [] => none
   | false :: t, r :: rows => (route zero t rows).map (r :: ·)
 
+/-- `HOARenderer.render` of one sample frame `x` (one value per channel of the pack) for one rendering item:
+```
+output_samples = np.zeros((n, n_out))                                          # HOARenderer.render
+output_samples[ovl, ~is_lfe] += np.dot(input_samples[ovl], decoder.T)           # FixedMatrix.process
+```
+per output channel: LFE channels are never written and keep the `0.0` of `np.zeros`; non-LFE channel number `i` (counted
+among the non-LFE ones) gets `0.0 + Σ_c decoder[i, c]·x[c]`. `none` = numpy's shape error when the number of non-LFE
+channels differs from the number of decoder rows. -/
+def renderFrame {C : Nat} (lfe : List Bool) (rows : List (Vector α C)) (x : Vector α C) : Option (List α) :=
+  match lfe, rows with
+  | [], [] => some []
+  | [], _ :: _ => none
+  | true :: t, rows => (renderFrame t rows x).map (Scalar.ofNat 0 :: ·)
+  | false :: _, [] => none
+  | false :: t, r :: rows =>
+    (renderFrame t rows x).map ((Scalar.ofNat 0 + finSum fun c : Fin C => r[c.1] * x[c.1]) :: ·)
+
 end kernel
 
 /-! ### Channel numbering and normalisation factors -/
@@ -170,11 +191,16 @@ def fact : Nat → Nat
   | 0 => 1
   | n + 1 => (n + 1) * fact n
 
-/-- `norm_N3D(n, |m|)² = (2n+1)·(n-|m|)!/(n+|m|)!` as (numerator, denominator). -/
-def n3dSq (n m : Nat) : Nat × Nat := ((2 * n + 1) * fact (n - m), fact (n + m))
+/-- `hoa.fact(n - abs_m)` = `scipy.special.factorial(n - abs_m, exact=True).astype(float)` on an integer difference
+that may be negative: scipy returns `0` for negative arguments.  (`n - abs_m` is negative when `|degree| > order`; nothing in the real
+code rejects such a channel.) -/
+def factSub (n m : Nat) : Nat := if n < m then 0 else fact (n - m)
 
-/-- `norm_SN3D(n, |m|)² = (n-|m|)!/(n+|m|)!` -/
-def sn3dSq (n m : Nat) : Nat × Nat := (fact (n - m), fact (n + m))
+/-- `norm_N3D(n, |m|)² = (2n+1)·(n-|m|)!/(n+|m|)!` as (numerator, denominator); `0` for `|m| > n`, as the code. -/
+def n3dSq (n m : Nat) : Nat × Nat := ((2 * n + 1) * factSub n m, fact (n + m))
+
+/-- `norm_SN3D(n, |m|)² = (n-|m|)!/(n+|m|)!`; `0` for `|m| > n`, as the code. -/
+def sn3dSq (n m : Nat) : Nat × Nat := (factSub n m, fact (n + m))
 
 /-- squares of the `convert` table in `norm_FuMa`; `none` = `KeyError` -/
 def fumaFactorSq : Nat → Nat → Option (Nat × Nat)
@@ -199,11 +225,11 @@ variable {α : Type} [Scalar α]
 
 /-- `np.sqrt((2.0*n + 1.0) * fact(n-abs_m) / fact(n+abs_m))` (element-wise) -/
 def normN3D (n m : Nat) : α :=
-  Scalar.sqrt ((Scalar.ofNat (2 * n + 1) * Scalar.ofNat (fact (n - m))) / Scalar.ofNat (fact (n + m)))
+  Scalar.sqrt ((Scalar.ofNat (2 * n + 1) * Scalar.ofNat (factSub n m)) / Scalar.ofNat (fact (n + m)))
 
 /-- `np.sqrt(fact(n-abs_m) / fact(n+abs_m))` -/
 def normSN3D (n m : Nat) : α :=
-  Scalar.sqrt (Scalar.ofNat (fact (n - m)) / Scalar.ofNat (fact (n + m)))
+  Scalar.sqrt (Scalar.ofNat (factSub n m) / Scalar.ofNat (fact (n + m)))
 
 /-- the `convert` dict of `norm_FuMa` (floats as the code writes them) -/
 def fumaFactor : Nat → Nat → Option α
@@ -233,6 +259,81 @@ def normBy (conv : Nat) (n m : Nat) : Option α :=
   | 2 => normFuMa n m
   | _ => none
 
+/-- does `norm(n, |m|)` return (rather than raise) for this convention index?  (N3D / SN3D always; FuMa exactly on its
+`convert` table; an unknown convention name is a `KeyError` in `hoa.norm_functions`) -/
+def normDefined (conv : Nat) (n m : Nat) : Bool :=
+  match conv with
+  | 0 => true
+  | 1 => true
+  | 2 => (fumaFactorSq n m).isSome
+  | _ => false
+
+/-! ### Real spherical harmonics (`hoa.sph_harm`, `hoa.Alegendre`) -/
+
+/-- `P_m^m(x)` without the Condon–Shortley phase: `(2m−1)!!·(1−x²)^{m/2}`, with `c = √(1−x²)`. -/
+def legDiag (c : α) : Nat → α
+  | 0 => Scalar.ofNat 1
+  | m + 1 => Scalar.ofNat (2 * m + 1) * c * legDiag c m
+
+/-- `(P_{m+j}^m(x), P_{m+j−1}^m(x))` by the upward recurrence in the order
+`(n−m)·P_n^m = (2n−1)·x·P_{n−1}^m − (n+m−1)·P_{n−2}^m`, started at `P_m^m`, `P_{m−1}^m = 0`. -/
+def legUp (m : Nat) (x c : α) : Nat → α × α
+  | 0 => (legDiag c m, Scalar.ofNat 0)
+  | j + 1 =>
+    let (p1, p0) := legUp m x c j
+    let n := m + j + 1
+    ((Scalar.ofNat (2 * n - 1) * x * p1 - Scalar.ofNat (n + m - 1) * p0) / Scalar.ofNat (j + 1), p1)
+
+/-- `hoa.Alegendre(n, m, x) = (-1.0)**m * scipy.special.lpmv(m, n, x)` for `0 ≤ m`: the associated Legendre function
+without the Condon–Shortley phase (scipy's `lpmv` includes it; the code removes it); `0` for `m > n` (as `lpmv`).
+scipy is a black box: this closed form / recurrence is tied to it by the correspondence on `sph_harm`. -/
+def alegendre (n m : Nat) (x : α) : α :=
+  if n < m then Scalar.ofNat 0 else (legUp m x (Scalar.sqrt (Scalar.ofNat 1 - x * x)) (n - m)).1
+
+/-- the `scale` array of `hoa.sph_harm`: `1` for `m = 0`, `√2·cos(m·az)` for `m > 0`, `−√2·sin(m·az)` for `m < 0` -/
+def azScale (m : Int) (az : α) : α :=
+  if 0 < m then Scalar.sqrt (Scalar.ofNat 2) * Scalar.cos (Scalar.ofNat m.natAbs * az)
+  else if m < 0 then -(Scalar.sqrt (Scalar.ofNat 2)) * Scalar.sin (-(Scalar.ofNat m.natAbs) * az)
+  else Scalar.ofNat 1
+
+/-- `hoa.sph_harm(n, m, az, el, norm)` for one channel and one direction, `nf = norm(n, |m|)`:
+`norm(n, np.abs(m)) * Alegendre(n, np.abs(m), np.sin(el)) * scale`. -/
+def sphHarm (nf : α) (n : Nat) (m : Int) (az el : α) : α :=
+  nf * alegendre n m.natAbs (Scalar.sin el) * azScale m az
+
 end norms
+
+/-! ### The whole of `HOADecoderDesign.design` from the pack's channel list -/
+
+section pack
+variable {α : Type} [Scalar α]
+
+/-- `Y_virt = sph_harm(n[:, None], m[:, None], az[None], el[None], norm=norm_N3D)`: one row per channel of the pack,
+one column per virtual loudspeaker direction. -/
+@[specialize] def yVirt {C P : Nat} (ord : Vector Nat C) (deg : Vector Int C) (az el : Vector α P) : Mat α C P :=
+  Mat.ofFn fun c p => sphHarm (normN3D ord[c.1] deg[c.1].natAbs) ord[c.1] deg[c.1] az[p.1] el[p.1]
+
+/-- `norm_N3D(n, np.abs(m))` on the channel arrays (element-wise) -/
+def n3dVec {C : Nat} (ord : Vector Nat C) (deg : Vector Int C) : Vector α C :=
+  Vector.ofFn fun c => normN3D ord[c.1] deg[c.1].natAbs
+
+/-- `norm(n, np.abs(m))` on the channel arrays for the pack's convention (element-wise: entry `c` depends on channel
+`c` only); `none` = the real function raises (FuMa outside its table, unknown convention). -/
+def normVec {C : Nat} (conv : Nat) (ord : Vector Nat C) (deg : Vector Int C) : Option (Vector α C) :=
+  if (List.finRange C).all (fun c => normDefined conv ord[c.1] deg[c.1].natAbs) then
+    some (Vector.ofFn fun c => ((normBy conv ord[c.1] deg[c.1].natAbs : Option α).getD (Scalar.ofNat 0)))
+  else none
+
+/-- `HOADecoderDesign.design(type_metadata)` from the pack's orders, degrees and normalisation, the virtual
+loudspeaker directions (`az`, `el` in radians, as `design` derives them from the t-design points) and `G_virt`;
+everything between the metadata and the decoder matrix is inside: `norm_*`, `sph_harm`, `allrad_design`, maxRE,
+mean-power normalisation, gains.  `none` = the real call raises in `norm`. -/
+@[specialize] def designPack {L C P : Nat} (o : Opts) (G : Mat α L P) (az el : Vector α P) (conv : Nat)
+    (ord : Vector Nat C) (deg : Vector Int C) (coef : Nat → α) (gains : Vector α C) (objGain : α) (mute : Bool) :
+    Option (Mat α L C) :=
+  (normVec conv ord deg).map fun nrm =>
+    design o G (yVirt ord deg az el) (n3dVec ord deg) nrm ord coef gains objGain mute
+
+end pack
 
 end Earverif.Hoa
